@@ -130,12 +130,22 @@ def run(ctx: Ctx) -> None:
                 continue
             # the real history is not a behaviour of the spec.  It is a C04 violation when a *later* call did not get
             # the response the spec says it gets; a divergence confined to the first call is C07/C10 territory -> drift.
-            real, spec = det["real"]["obs"], det["spec_obs"]
-            n_first = _len_first(det["script"], spec)
-            if real[n_first:] != spec[n_first:] and not det["real"]["hung"]:
+            real, spec = _segments(det["real"]["obs"]), _segments(det["spec_obs"])
+            if real[1:] != spec[1:] and not det["real"]["hung"]:
                 ctx.violation("NextCallCorrect", sig, {**det, "tlc": v})
             else:
-                ctx.drift.append({"script": det["script"], "real": real, "spec": spec, "tlc": v})
+                ctx.drift.append({"script": det["script"], "real": det["real"]["obs"], "spec": det["spec_obs"], "tlc": v})
+
+
+def _segments(obs) -> list:
+    """Split a client history at its call markers: [[entries of call 1], [entries of call 2], ...]."""
+    out: list = []
+    for e in obs:
+        if e == ["call"]:
+            out.append([])
+        elif out:
+            out[-1].append(e)
+    return out
 
 
 def _len_first(script, spec_obs) -> int:
